@@ -144,3 +144,8 @@ func init() {
 	E["(*github.com/evmos/ethermint/x/evm/statedb.Account).IsContract"] = isContract
 	E["(github.com/evmos/ethermint/x/evm/statedb.Account).IsContract"] = isContract
 }
+
+func init() {
+	// fx-core's own telemetry helper (float conversions of amounts): observability only
+	externals["github.com/functionx/fx-core/v8/telemetry.SetGaugeLabelsWithDenom"] = func(fr *frame, args []value) value { return nil }
+}
